@@ -2,10 +2,10 @@ package symgo
 
 import (
 	"fmt"
-	"os"
 	"go/constant"
 	"go/token"
 	"go/types"
+	"os"
 	"strings"
 	"time"
 
